@@ -1708,6 +1708,11 @@ impl Monitor {
                         PRet::Disable => {
                             self.srcs[s].enabled = false;
                         }
+                        PRet::Reregister => {
+                            // re-registered during this dispatch: what was collected for its other
+                            // sub-sources before is no longer owed in this dispatch (statement of C02)
+                            self.srcs[s].touched = true;
+                        }
                         _ => {}
                     }
                 }
